@@ -22,6 +22,11 @@ def gen_workspace(rng, *, max_channels=3, max_samples=3, max_bins=4, mods=None,
     channels = []
     shared_normsys = [f"{name_prefix}ns{i}" for i in range(rng.randint(1, 2))]
     shared_histosys = [f"{name_prefix}hs{i}" for i in range(rng.randint(1, 2))]
+    if rng.random() < 0.12:
+        # punctuation in parameter names, and names that differ only in it (no blanks: the XML format lists
+        # parameter names separated by blanks)
+        shared_normsys = [name_prefix + n for n in rng.sample(["b-tag", "b_tag", "b.tag", "JES+", "JES_"], len(shared_normsys))]
+        shared_histosys = [name_prefix + n for n in rng.sample(["pt(j)", "pt_j_", "pt-j", "sf:e", "sf_e"], len(shared_histosys))]
     both_name = f"{name_prefix}corr"  # used as histosys AND normsys (allowed: same constraint)
     use_lumi = "lumi" in mods and rng.random() < lumi_prob / 0.35 * 0.6
     shapefactor_bins = None
@@ -37,6 +42,10 @@ def gen_workspace(rng, *, max_channels=3, max_samples=3, max_bins=4, mods=None,
         cname = f"{name_prefix}{cnames[ci]}"
         nsamp = rng.randint(1, max_samples)
         snames = ["signal"] + rng.sample(SAMPLE_POOL[1:], nsamp - 1) if (ci == 0 or rng.random() < 0.6) else rng.sample(SAMPLE_POOL[1:], min(nsamp, 3))
+        if rng.random() < 0.12:
+            # sample names with punctuation/blanks and near-twins
+            twins = rng.sample(["W+jets", "W_jets", "W jets", "t tbar", "t_tbar", "Z(ll)", "Z_ll_"], len(snames))
+            snames = [sn if sn == "signal" else tw for sn, tw in zip(snames, twins)]
         samples = []
         use_stat = "staterror" in mods and rng.random() < 0.6
         for si, sn in enumerate(snames):
